@@ -390,6 +390,14 @@ theorem C08_fact_buffer_factor : Facts.frame_buffer_factor = some 3 := by decide
 /-- overflow handling is skipped exactly while `Room` holds (`cap - offsetAppend ≥ soft`), and is evaluated after every read -/
 theorem C08_fact_overflow_condition : Facts.frame_overflow_condition =
     ["return if len(mlr.buffer)-mlr.offsetAppend >= mlr.softRecordLimit", "processBuffer ends with mlr.checkOverflow()"] := by decide
+theorem C08_fact_room_rule_found : Facts.gen_room_rule_found = true := by decide
+/-- the no-overflow test translated from `checkOverflow` is `Room`, whenever the buffer holds the data -/
+theorem C08_gen_room_rule (c : Cfg) (s : St) (h : s.offsetAppend ≤ c.cap) :
+    Facts.gen_room_rule c.cap s.offsetAppend c.soft = true ↔ Room c s := by
+  unfold Facts.gen_room_rule Room
+  have : ((c.cap : Int) - (s.offsetAppend : Int)) = ((c.cap - s.offsetAppend : Nat) : Int) := by omega
+  rw [this]
+  simp
 /-- `runConnection` sizes the reader with the record limit as soft limit -/
 theorem C08_fact_soft_limit : Facts.frame_soft_is_max_record = some true := by decide
 
